@@ -47,6 +47,7 @@ type vfpsReq struct {
 	R                                             int  `json:"r"`
 	Short                                         bool `json:"short"`
 	C                                             int  `json:"c"`
+	Cls                                           int  // class of the client address the request comes from (1 = 127.0.0.1)
 	started, admitted, released, returned, inGate bool
 	passed                                        bool
 	hold, inAdm, admPassed                        bool // held in the hc.admit hook until the schedule says "adm"
@@ -62,7 +63,58 @@ type vfpsUpd struct {
 	LimOn                                      bool   `json:"limon"`
 	BadSq                                      bool   `json:"badsq"`
 	API                                        string `json:"api"`
+	Allow                                      []int  // classes of client addresses the policy admits (empty: all)
 	started, begun, drained, returned, waiting bool
+	// option values handed to the update that the caller still owns afterwards
+	ownedIPs []string
+	ownedRL  *RateLimiterConfig
+	ownedTLS *TLSConfig
+}
+
+// classes of client addresses (what an AllowedIPs list tells apart); class 4 is the address the harness writes
+// over option values the caller still owns
+var vfpsClassIP = map[int]string{1: "127.0.0.1", 2: "10.1.1.2", 3: "10.1.1.3", 4: "10.66.66.66"}
+
+func vfpsIPs(allow []int) []string {
+	var out []string
+	for _, k := range allow {
+		out = append(out, vfpsClassIP[k])
+	}
+	return out
+}
+
+// vfpsDeny: the classes an AllowedIPs list refuses (empty list: nobody)
+func vfpsDeny(allow []int) []int {
+	out := []int{}
+	if len(allow) == 0 {
+		return out
+	}
+	for k := 1; k <= 4; k++ {
+		in := false
+		for _, a := range allow {
+			if a == k {
+				in = true
+			}
+		}
+		if !in {
+			out = append(out, k)
+		}
+	}
+	return out
+}
+
+func vfpsDenyOfStrings(ips []string) []int {
+	var allow []int
+	for _, ip := range ips {
+		k := 4 // anything unknown counts as the scribbled address
+		for c, s := range vfpsClassIP {
+			if s == ip {
+				k = c
+			}
+		}
+		allow = append(allow, k)
+	}
+	return vfpsDeny(allow)
 }
 
 type vfpsStep struct {
@@ -81,6 +133,7 @@ type vfpsSched struct {
 	LimOn  []int      `json:"limon"`
 	BadSq  []int      `json:"badsq"`
 	Held   []int      `json:"held"`
+	Allow0 []int      // classes of client addresses the policy given to New() admits (empty: all)
 	NR     int        `json:"nr"`
 	NU     int        `json:"nu"`
 	NC     int        `json:"nc"`
@@ -112,6 +165,7 @@ type vfpsWorld struct {
 	budget int
 	diverg int
 	yield  *rand.Rand
+	opts0  *ExportOptions // what the caller handed to New() and still owns
 }
 
 var vfpsCur atomic.Pointer[vfpsWorld]
@@ -326,8 +380,10 @@ func vfpsNewWorld(t *testing.T, sc *vfpsSched, gating bool, seed int64) *vfpsWor
 	for r := 1; r <= sc.NR; r++ {
 		w.fs.vfPoke(fmt.Sprintf("/f%d", r), "file", []byte("x"), "", 0644)
 	}
-	n, err := New(w.fs, ExportOptions{Squash: "root", MaxFileSize: vfpsLabelBase, RateLimitConfig: vfpsLimiterConfig(sc.Budget),
-		MaxWorkers: 8})
+	// the options given to New stay with the caller (w.opts0): the alias driver overwrites them afterwards
+	w.opts0 = &ExportOptions{Squash: "root", MaxFileSize: vfpsLabelBase, RateLimitConfig: vfpsLimiterConfig(sc.Budget),
+		MaxWorkers: 8, AllowedIPs: vfpsIPs(sc.Allow0), TLS: &TLSConfig{CipherSuites: []uint16{100}}}
+	n, err := New(w.fs, *w.opts0)
 	if err != nil {
 		t.Fatalf("New: %v", err)
 	}
@@ -344,7 +400,11 @@ func vfpsNewWorld(t *testing.T, sc *vfpsSched, gating bool, seed int64) *vfpsWor
 	w.h = &NFSProcedureHandler{server: srv}
 	// root handle before gates and hooks are active
 	e := &vfEnv{n: n, srv: srv, h: w.h, fs: w.fs, log: lb, xid: 100}
-	w.root = e.Mount(t, vfRoot)
+	if len(sc.Allow0) > 0 {
+		w.root = n.fileMap.Allocate(n.root) // MNT from 127.0.0.1 may be refused by the address filter given to New
+	} else {
+		w.root = e.Mount(t, vfRoot)
+	}
 	w.fs.Gate = w.gateFn
 	w.fs.Tag = w.tagFn
 	if w.tcp {
@@ -363,10 +423,10 @@ func (w *vfpsWorld) resetLine(sc *vfpsSched, kind string) M {
 	}
 	for u := 1; u <= sc.NU; u++ {
 		p := w.up[u]
-		upds = append(upds, M{"u": u, "secure": p.Secure, "limon": p.LimOn, "badsq": p.BadSq, "api": p.API})
+		upds = append(upds, M{"u": u, "secure": p.Secure, "limon": p.LimOn, "badsq": p.BadSq, "api": p.API, "deny": vfpsDeny(p.Allow)})
 	}
 	return M{"ev": "reset", "hist": sc.ID, "mode": sc.Mode, "kind": kind, "budget": sc.Budget, "nr": sc.NR, "nu": sc.NU,
-		"nc": sc.NC, "reqs": reqs, "upds": upds}
+		"nc": sc.NC, "reqs": reqs, "upds": upds, "deny0": vfpsDeny(sc.Allow0)}
 }
 
 func (w *vfpsWorld) setTimeout(short bool) {
@@ -397,14 +457,17 @@ func (w *vfpsWorld) startCall(r, c int) {
 	w.setTimeout(q.Short)
 	w.mu.Lock()
 	q.started, q.C = true, c
-	w.emit(M{"ev": "rq.start", "r": r, "c": c})
+	if q.Cls == 0 {
+		q.Cls = 1
+	}
+	w.emit(M{"ev": "rq.start", "r": r, "c": c, "cls": q.Cls})
 	w.mu.Unlock()
 	w.wg.Add(1)
 	go func() {
 		defer w.wg.Done()
 		kind := ""
 		if c == 0 {
-			cred := vfCred{Flavor: AUTH_SYS, UID: 0, GID: 0, IP: "127.0.0.1", Port: 2000}
+			cred := vfCred{Flavor: AUTH_SYS, UID: 0, GID: 0, IP: vfpsClassIP[q.Cls], Port: 2000}
 			ac, rc := cred.authCtx()
 			call := &RPCCall{Header: RPCMsgHeader{Xid: vfpsXidBase + uint32(r), MsgType: RPC_CALL, RPCVersion: 2, Program: NFS_PROGRAM,
 				Version: NFS_V3, Procedure: NFSPROC3_LOOKUP}, Credential: rc, Verifier: RPCVerifier{Body: []byte{}}}
@@ -432,8 +495,10 @@ func (w *vfpsWorld) policyFor(p *vfpsUpd) PolicyOptions {
 	if p.BadSq {
 		sq = "none"
 	}
+	// slices and pointers in here stay with the caller (p.owned*)
+	p.ownedIPs, p.ownedRL, p.ownedTLS = vfpsIPs(p.Allow), vfpsLimiterConfig(w.budget), &TLSConfig{CipherSuites: []uint16{uint16(100 + p.U)}}
 	return PolicyOptions{Secure: p.Secure, Squash: sq, MaxFileSize: vfpsLabelBase + int64(p.U), EnableRateLimiting: p.LimOn,
-		RateLimitConfig: vfpsLimiterConfig(w.budget)}
+		RateLimitConfig: p.ownedRL, AllowedIPs: p.ownedIPs, TLS: p.ownedTLS}
 }
 
 func (w *vfpsWorld) startUpdate(u int) {
@@ -450,6 +515,7 @@ func (w *vfpsWorld) startUpdate(u int) {
 		if p.API == "export" && !p.BadSq {
 			eo := w.n.GetExportOptions()
 			eo.Secure, eo.MaxFileSize, eo.EnableRateLimiting, eo.RateLimitConfig = pol.Secure, pol.MaxFileSize, pol.EnableRateLimiting, pol.RateLimitConfig
+			eo.AllowedIPs, eo.TLS = pol.AllowedIPs, pol.TLS
 			err = w.n.UpdateExportOptions(eo)
 		} else {
 			err = w.n.UpdatePolicyOptions(pol)
@@ -935,6 +1001,127 @@ func TestVF_PolicySwapFree(t *testing.T) {
 		events += w.flush(tr, reset)
 	}
 	vfWriteJSON(t, "ps_free.summary.json", M{"histories": nh, "events": events, "nontrivial": nontrivial, "kinds": kinds})
+}
+
+// ---------------------------------------------------------------- aliasing with caller-owned option values
+
+// scribble overwrites everything the caller of New / an update still owns
+func vfpsScribble(ips []string, rl *RateLimiterConfig, tls *TLSConfig) {
+	for i := range ips {
+		ips[i] = vfpsClassIP[4]
+	}
+	if rl != nil {
+		*rl = RateLimiterConfig{GlobalRequestsPerSecond: 1, PerIPRequestsPerSecond: 1, PerIPBurstSize: 77, CleanupInterval: time.Hour}
+	}
+	if tls != nil {
+		for i := range tls.CipherSuites {
+			tls.CipherSuites[i] = 999
+		}
+		tls.CertFile, tls.MinVersion = "/scribbled", 1
+	}
+}
+
+// report logs what GetExportOptions says the policy in force is
+func (w *vfpsWorld) report() {
+	eo := w.n.GetExportOptions()
+	budget, tls := -1, 0
+	if eo.RateLimitConfig != nil {
+		budget = eo.RateLimitConfig.PerIPBurstSize
+	}
+	if eo.TLS != nil && len(eo.TLS.CipherSuites) > 0 {
+		tls = int(eo.TLS.CipherSuites[0])
+	}
+	w.mu.Lock()
+	w.emit(M{"ev": "opt.report", "lab": int(eo.MaxFileSize - vfpsLabelBase), "deny": vfpsDenyOfStrings(eo.AllowedIPs), "secure": eo.Secure,
+		"en": eo.EnableRateLimiting, "budget": budget, "tls": tls})
+	w.mu.Unlock()
+}
+
+// TestVF_PolicySwapAlias: after New and after every accepted and every rejected update (both APIs) the harness
+// overwrites every option value the caller still owns (the AllowedIPs slice, the RateLimitConfig and TLS structs
+// behind their pointers); GetExportOptions and the next requests (from an admitted, a refused and the overwritten
+// address) show which policy is in force.
+func TestVF_PolicySwapAlias(t *testing.T) {
+	vfpsRequireHooks(t)
+	nh := vfEnvInt("VF_ALIAS_HIST", 12)
+	seed := vfSeed()
+	tr := vfNewTrace(t, "ps_alias.ndjson")
+	defer tr.Close()
+	allows := [][]int{{}, {1}, {2}, {1, 2}, {1, 3}, {3}}
+	events, nontrivial := 0, 0
+	var samples []M
+	for h := 0; h < nh; h++ {
+		rnd := vfRand(seed, fmt.Sprintf("psalias%d", h))
+		sc := &vfpsSched{ID: h, Mode: "direct", Budget: 1 + rnd.Intn(3), NR: 12, NU: 3, Allow0: allows[rnd.Intn(len(allows))]}
+		for u := 1; u <= sc.NU; u++ {
+			if rnd.Intn(2) == 0 {
+				sc.LimOn = append(sc.LimOn, u)
+			}
+		}
+		rejected := 1 + rnd.Intn(sc.NU+1) // one of the updates is rejected (or none, when this is NU+1)
+		if rejected <= sc.NU {
+			sc.BadSq = []int{rejected}
+		}
+		w := vfpsNewWorld(t, sc, false, seed+int64(h))
+		plan := []M{}
+		for u := 1; u <= sc.NU; u++ {
+			w.up[u].Allow = allows[rnd.Intn(len(allows))]
+			w.up[u].API = []string{"policy", "export"}[rnd.Intn(2)]
+			if u == 1 && h%2 == 0 && len(w.up[u].Allow) == 0 {
+				w.up[u].Allow = []int{1} // make sure a list is installed through UpdatePolicyOptions
+				w.up[u].API = "policy"
+			}
+			plan = append(plan, M{"u": u, "api": w.up[u].API, "allow": w.up[u].Allow, "rejected": w.up[u].BadSq})
+		}
+		reset := w.resetLine(sc, "alias")
+		hook := vfpsHook
+		vfpsCur.Store(w)
+		vfHookP.Store(&hook)
+		r := 0
+		probe := func(allow []int) {
+			// one request from an address the policy in force admits, one from an address it refuses (when it has a
+			// list), one from the address the harness writes over the caller's values
+			classes := []int{1}
+			if len(allow) > 0 {
+				classes = []int{allow[rnd.Intn(len(allow))], vfpsDeny(allow)[0]}
+			}
+			classes = append(classes, 4)
+			for _, k := range classes {
+				if r >= sc.NR {
+					return
+				}
+				r++
+				w.rq[r].Cls = k
+				w.startCall(r, 0)
+				w.quiesce()
+			}
+		}
+		// the options given to New
+		vfpsScribble(w.opts0.AllowedIPs, w.opts0.RateLimitConfig, w.opts0.TLS)
+		w.report()
+		inForce := sc.Allow0
+		probe(inForce)
+		for u := 1; u <= sc.NU; u++ {
+			w.startUpdate(u)
+			w.quiesce()
+			p := w.up[u]
+			vfpsScribble(p.ownedIPs, p.ownedRL, p.ownedTLS)
+			if !p.BadSq {
+				inForce = p.Allow
+			}
+			w.report()
+			probe(inForce)
+		}
+		w.finish()
+		if len(sc.BadSq) > 0 {
+			nontrivial++
+		}
+		if len(samples) < 1 {
+			samples = append(samples, M{"allow0": sc.Allow0, "updates": plan})
+		}
+		events += w.flush(tr, reset)
+	}
+	vfWriteJSON(t, "ps_alias.summary.json", M{"histories": nh, "events": events, "nontrivial": nontrivial, "samples": samples})
 }
 
 // ---------------------------------------------------------------- limiter clause (finding F10)
